@@ -11,6 +11,9 @@ REGISTRY = {
     "C01": ("bpmc.checks.pycodec", "C01"),
     "C02": ("bpmc.checks.pycodec", "C02"),
     "C03": ("bpmc.checks.ccodec", "C03"),
+    "C04": ("bpmc.checks.copt", "C04"),
+    "C07": ("bpmc.checks.c07", "C07"),
+    "C14": ("bpmc.checks.c14", "C14"),
 }
 
 
